@@ -69,6 +69,7 @@ pub fn run_mpc_ext(case: &MpcCase, adv: Adversary, cfg: &ExecCfg, override_args:
         net.late = adv.late;
         net.crash_after = adv.crash_after;
         net.keep_open = adv.keep_open;
+        net.slow_sends = cfg.slow_sends;
     }
     let circuit = case.circ.to_circuit();
     let mut dirs: Vec<Option<tempfile::TempDir>> = vec![];
